@@ -71,7 +71,10 @@ def flat_summary(fc):
                    attrs["min"], attrs["max"], attrs["nominal"], attrs["fixed"])
     eqs = sorted(repr((adapters.to_mexpr(e.left), adapters.to_mexpr(e.right))) for e in fc.equations)
     ieqs = sorted(repr((adapters.to_mexpr(e.left), adapters.to_mexpr(e.right))) for e in fc.initial_equations)
-    return {"symbols": syms, "equations": eqs, "initial_equations": ieqs}
+    funcs = {}
+    for fname, f in getattr(fc, "functions", {}).items():
+        funcs[fname] = (sorted(f.symbols.keys()), len(f.statements))
+    return {"symbols": syms, "equations": eqs, "initial_equations": ieqs, "functions": funcs}
 
 
 def flatten_handle(tree, cname):
@@ -86,9 +89,23 @@ def flatten_handle(tree, cname):
         return ("exc", type(e).__name__)
 
 
-def flatten_desc(lib, cname):
+def fn_text(fn):
+    """a user function and a model that calls it (the reference flattener of mlib has no functions: the oracle is the
+    fresh parse of this text)."""
+    if not fn:
+        return ""
+    extra = "".join("  Real %s;\n" % n for n in fn["extra_syms"])
+    return ("\nfunction fq\n  input Real u;\n  output Real y;\nprotected\n  Real t;\n%salgorithm\n  t := %d * u;\n  y := t + 1;\nend fq;\n"
+            "\nmodel UsesFq\n  Real a;\n  Real b;\nequation\n  a = time;\n  b = fq(a);\nend UsesFq;\n" % (extra, fn["k"]))
+
+
+def handle_text(h):
+    return mlib.print_library(h["lib"]) + fn_text(h.get("fn"))
+
+
+def flatten_desc(lib, cname, fn=None):
     from pymoca import parser
-    text = mlib.print_library(lib)
+    text = mlib.print_library(lib) + fn_text(fn)
     t = parser.parse(text, bypass_cache=True)
     if t is None:
         return ("exc", "SyntaxError")
@@ -147,7 +164,7 @@ def check_copy_invariant(src, cp):
 
 
 SNIPPET_COUNTER = [0]
-EDIT_KINDS = ("add_symbol", "remove_symbol", "add_equation", "remove_equation", "add_class", "remove_class", "transplant_class")
+EDIT_KINDS = ("add_symbol", "remove_symbol", "add_equation", "remove_equation", "add_class", "remove_class", "transplant_class", "edit_function")
 
 
 def parse_snippet(text):
@@ -161,9 +178,12 @@ class History:
     def __init__(self, ctx, rng, lib, tags):
         from pymoca import parser
         self.ctx, self.r = ctx, rng
-        self.text0 = mlib.print_library(lib)
+        fn = {"k": rng.randint(2, 9), "extra_syms": []} if rng.random() < 0.4 else None
+        self.text0 = mlib.print_library(lib) + fn_text(fn)
         t0 = parser.parse(self.text0, bypass_cache=True)
-        self.handles = [{"tree": t0, "lib": copy.deepcopy(lib), "depth": 0, "label": "original", "src": None}]
+        self.handles = [{"tree": t0, "lib": copy.deepcopy(lib), "depth": 0, "label": "original", "src": None, "fn": fn}]
+        if fn:
+            tags.add("library-with-function-call")
         self.ops = []
         self.fresh = 0
         self.tags = tags
@@ -233,7 +253,8 @@ class History:
             return self.op_flatten(hi)
         new = copy.deepcopy(h["tree"])
         label = {0: "copy", 1: "copy-of-copy", 2: "copy-of-copy-of-copy"}[h["depth"]]
-        self.handles.append({"tree": new, "lib": copy.deepcopy(h["lib"]), "depth": h["depth"] + 1, "label": label, "src": hi})
+        self.handles.append({"tree": new, "lib": copy.deepcopy(h["lib"]), "depth": h["depth"] + 1, "label": label, "src": hi,
+                             "fn": copy.deepcopy(h.get("fn"))})
         self.ops.append(["deepcopy", hi])
         self.has_copy = True
         self.ctx.cover("op:deepcopy:" + label)
@@ -253,7 +274,20 @@ class History:
         if not classes:
             return None
         kind = kind or r.choice(["add_symbol", "add_symbol", "add_equation", "add_equation", "remove_equation", "remove_symbol",
-                                 "add_class", "remove_class"])
+                                 "add_class", "remove_class"] + (["edit_function"] * 3 if h.get("fn") else []))
+        if kind == "edit_function":
+            if not h.get("fn"):
+                return None
+            self.fresh += 1
+            nm = "tq%d" % self.fresh
+            snip = parse_snippet("model X\n  Real %s;\nend X;\n" % nm)
+            tree.classes["fq"].add_symbol(snip.classes["X"].symbols[nm])
+            h["fn"]["extra_syms"].append(nm)
+            self.ops.append(["edit_function", hi, "fq"])
+            self.has_edit = True
+            self.ctx.monitor("edits_applied")
+            self.ctx.cover("op:edit_function:on-%s" % h["label"])
+            return None
         cname = cname or r.choice(classes)
         d = desc_class(lib, cname)
         c = get_class(tree, cname)
@@ -346,7 +380,7 @@ class History:
             except Exception as e:
                 return ("exc", type(e).__name__)
         got = run(h["tree"])
-        fresh = parser.parse(mlib.print_library(h["lib"]), bypass_cache=True)
+        fresh = parser.parse(handle_text(h), bypass_cache=True)
         exp = run(fresh)
         self.ctx.monitor("generate_comparisons")
         self.ctx.cover("op:generate-%s:on-%s" % (kind, h["label"]))
@@ -360,7 +394,7 @@ class History:
     def op_flatten(self, hi, cname=None):
         r = self.r
         h = self.handles[hi]
-        cands = [cname] if cname else mlib.flattenable_classes(h["lib"])
+        cands = [cname] if cname else mlib.flattenable_classes(h["lib"]) + (["UsesFq"] * 3 if h.get("fn") else [])
         # sometimes ask for a class that only exists in another handle
         others = [c for o in self.handles for c in mlib.flattenable_classes(o["lib"]) if c.startswith("Kq")]
         if others and not cname and r.random() < 0.25:
@@ -370,7 +404,7 @@ class History:
         cname = r.choice(cands)
         self.ops.append(["flatten", hi, cname])
         got = flatten_handle(h["tree"], cname)
-        exp = flatten_desc(h["lib"], cname)
+        exp = flatten_desc(h["lib"], cname, h.get("fn"))
         self.ctx.monitor("flatten_comparisons")
         self.ctx.cover("op:flatten:on-" + h["label"])
         if got != exp:
